@@ -269,10 +269,11 @@ End Steps.
 Section PathSteps.
 Variable dbg : bool.
 (* the exclusions, on the record before and after: F-C02-8 (no marker, result starts with "//"),
-   F-C03-5 (marker, result does not start with "//"), F-C06-6 (opaque path that stops being opaque) *)
+   F-C03-5 (marker, result does not start with "//"); nothing for an authority or an opaque path
+   (F-C06-6 is repaired: an opaque path stays opaque) *)
 Definition path_gate (u u' : url) : Prop :=
   if has_authority_b u then True
-  else if is_opaque_b u then is_opaque_b u' = true
+  else if is_opaque_b u then True
   else path_starts_with_2slash u' = (path_start u =? scheme_end u + 3).
 
 Lemma pq_new_path dbg0 st s0 p P hh rem :
@@ -306,20 +307,16 @@ Proof.
     destruct (set_path_eval dbg u p u' W Hsl Hp Hx H) as (P & hh & rem & -> & HP & Epp).
     apply (path_result_cinv u _ P K); [|intros r _; exact (pq_new_path _ _ _ _ _ _ _ Epp)].
     exact (proj1 (plain_result dbg u P W Ha Hnm (proj1 HP)) G).
-  - (* opaque path *)
-    pose proof Ho as Ho2. unfold is_opaque_b in Ho2. apply negb_true_iff in Ho2.
-    destruct (opaque_path_start u W Ho2) as [Ha Eps]. rewrite Ha, Ho in G.
-    destruct (set_path_opaque_eval dbg u p u' W Ho (Hq Ho) H) as (P & -> & HP).
-    assert (forall r, P = 47 :: r -> False) as Hhead.
-    { intros r Hr. unfold is_opaque_b in G. apply negb_true_iff in G.
-      change (scheme_end (with_path u P)) with (scheme_end u) in G. rewrite <- Eps in G.
-      unfold byte_eqb in G. rewrite <- (N.add_0_r (path_start u)) in G.
-      rewrite <- nnth_nskipn, (wg_skip_ps u P W Ha), Hr in G. cbn in G. discriminate. }
-    apply (path_result_cinv u _ P K); [|intros r Hr; destruct (Hhead r Hr)].
-    apply (proj1 (plain_result dbg u P W Ha Eps HP)).
-    rewrite (wg_2slash u P W Ha). destruct P as [|c r0]; [reflexivity|].
-    unfold s_ss. cbn [starts_with]. destruct (47 =? c) eqn:E; [|reflexivity]. apply N.eqb_eq in E. subst c.
-    destruct (Hhead _ eq_refl).
+  - (* opaque path: stays opaque, so the path clause says nothing *)
+    destruct (set_path_opaque_ok dbg u p u' W Ho Hp (Hq Ho) H) as (W' & HT' & SF & Q & F & Ho' & (P & Pp & _)).
+    apply (path_result_cinv u u' P K); [exact (conj W' (conj HT' (conj SF (conj Q (conj F Pp)))))|].
+    intros r Hr. exfalso. subst P. unfold is_opaque_b in Ho'. apply negb_true_iff in Ho'.
+    destruct (opaque_path_start u' W' Ho') as [Ha' Eps']. rewrite (path_eval u' W') in Pp. inversion Pp as [Pp1].
+    unfold piece in Pp1. cbn [pidx] in Pp1. unfold nfirstn in Pp1.
+    assert (nnth (nskipn (path_start u') (ser u')) 0 = Some 47) as Hn.
+    { destruct (nskipn (path_start u') (ser u')) as [|c t]; [rewrite firstn_nil in Pp1; discriminate|].
+      destruct (N.to_nat _); [discriminate|]. cbn [firstn] in Pp1. inversion Pp1. reflexivity. }
+    rewrite nnth_nskipn, N.add_0_r, Eps' in Hn. unfold byte_eqb in Ho'. rewrite Hn in Ho'. discriminate.
   - (* marker *)
     pose proof M as [Ha Em]. destruct (marker_heads u W M) as (Hsl & _ & _). rewrite Ha in G.
     assert (is_opaque_b u = false) as Ho by (unfold is_opaque_b; rewrite Hsl; reflexivity). rewrite Ho in G.
